@@ -98,6 +98,9 @@ class NodeExpandedDiGraph(nx.DiGraph):
         if not all(isinstance(node, str) for node in G.nodes()):
             utils.logger.error(f"{__name__}: Graph id {utils.fpid(G)}: every node of the graph must be a string.")
             raise ValueError("Every node of the graph must be a string.")
+        if G.is_multigraph():
+            utils.logger.error(f"{__name__}: The graph must be a networkx DiGraph, not a MultiDiGraph (parallel edges are not supported).")
+            raise ValueError("The graph must be a networkx DiGraph, not a MultiDiGraph (parallel edges are not supported).")
 
         self.original_G = deepcopy(G)
 
